@@ -84,6 +84,7 @@ type Scenario struct {
 	MinChip    int64      `json:"minchip,omitempty"`
 	Via        string     `json:"via,omitempty"` // "manager": every call goes through a pokertable.Manager next to bystander tables
 	Actors     bool       `json:"actors,omitempty"` // attach observer actors to every table update (C20)
+	Bots       bool       `json:"bots,omitempty"`   // every seated player is a real botRunner; the driver only sends settlement-finish signals (C18)
 	Interval   int        `json:"interval,omitempty"`
 }
 
@@ -119,6 +120,10 @@ type TD struct {
 	injDone   map[string]bool
 	mgr       pt.Manager
 	obsAdapters []interface{ UpdateTableState(*pt.Table) error }
+	actMu       sync.Mutex
+	botMu       sync.Mutex
+	bots        map[string]*actorHandle
+	deliveryPre *PState
 	bystanders []string
 }
 
@@ -230,6 +235,9 @@ func NewTD(rec *Recorder, sc *Scenario) *TD {
 		if sc.Actors {
 			d.deliverToActors(t)
 		}
+		if sc.Bots {
+			d.deliverToBots(t)
+		}
 	})
 	te.OnTableStateUpdated(func(ev string, t *pt.Table) {
 		if ev == pt.TableStateEvent_GameUpdated || d.isDead() {
@@ -284,6 +292,8 @@ func NewTD(rec *Recorder, sc *Scenario) *TD {
 // deliverToActors hands the snapshot to a non-system observer and a system observer, each behind its own
 // TableEngineAdapter (C20): what each saw is recorded, and the engine's own table is projected before and after.
 func (d *TD) deliverToActors(t *pt.Table) {
+	d.actMu.Lock() // deliveries from different engine goroutines are serialised, each judged against its own snapshot
+	defer d.actMu.Unlock()
 	if d.obsAdapters == nil {
 		mk := func(system bool, name string) *actor.Actor {
 			a := actor.NewActor()
@@ -294,7 +304,7 @@ func (d *TD) deliverToActors(t *pt.Table) {
 			ob.OnTableStateUpdated(func(v *pt.Table) {
 				args := mkArgs()
 				args.Kind = name
-				d.rec.Emit("actorview", args, "", nil, v, nil, false)
+				d.rec.Emit("actorview", args, "", nil, v, d.deliveryPre, false)
 			})
 			a.SetRunner(ob)
 			d.obsAdapters = append(d.obsAdapters, ad)
@@ -310,6 +320,8 @@ func (d *TD) deliverToActors(t *pt.Table) {
 		}
 		mk(false, "observer2")
 	}
+	pre := d.rec.Project(nil, t)
+	d.deliveryPre = &pre
 	before := tableDigest(t)
 	for _, ad := range d.obsAdapters {
 		ad.UpdateTableState(t)
@@ -317,7 +329,80 @@ func (d *TD) deliverToActors(t *pt.Table) {
 	after := tableDigest(t)
 	a := mkArgs()
 	a.Kind = "delivered"
-	d.rec.Emit("actorsdone", a, "", realEngine(d.te), t, nil, before == after)
+	d.rec.Emit("actorsdone", a, "", nil, t, &pre, before == after)
+	d.deliveryPre = nil
+}
+
+// deliverToBots: one real botRunner per seated player behind a real TableEngineAdapter, as in actor/actor_test.go
+func (d *TD) deliverToBots(t *pt.Table) {
+	d.botMu.Lock()
+	if d.bots == nil {
+		d.bots = map[string]*actorHandle{}
+	}
+	var todo []*actorHandle
+	for _, p := range t.State.PlayerStates {
+		h, ok := d.bots[p.PlayerID]
+		if !ok {
+			a := actor.NewActor()
+			ad := actor.NewTableEngineAdapter(realEngine(d.te), t)
+			a.SetAdapter(ad)
+			bot := actor.NewBotRunner(p.PlayerID)
+			id := p.PlayerID
+			bot.OnTableAutoJoinActionRequested(func(c, tid, pid string) { go d.te.PlayerJoin(id) })
+			a.SetRunner(bot)
+			h = &actorHandle{ad: ad}
+			d.bots[p.PlayerID] = h
+		}
+		todo = append(todo, h)
+	}
+	d.botMu.Unlock()
+	for _, h := range todo {
+		h.ad.UpdateTableState(t)
+	}
+}
+
+type actorHandle struct {
+	ad interface{ UpdateTableState(*pt.Table) error }
+}
+
+// playHandBots: the bots play; the driver signals settlement-finish for everybody and waits for the hand to be settled.
+func (d *TD) playHandBots() string {
+	gc0 := d.table().State.GameCount
+	d.hmu.Lock()
+	parts := []string{}
+	for id := range d.gateParts {
+		parts = append(parts, id)
+	}
+	d.hmu.Unlock()
+	sort.Strings(parts)
+	for _, id := range parts {
+		d.exec(Op{Op: "finish", ID: id})
+	}
+	dl := time.Now().Add(20 * time.Second)
+	opened := false
+	for time.Now().Before(dl) {
+		st := d.table().State
+		if st.GameCount > gc0 {
+			opened = true
+			if st.Status == pt.TableStateStatus_TableGameStandby || st.Status == pt.TableStateStatus_TablePausing {
+				d.settle()
+				d.rec.Emit("q", mkArgs(), "", d.te, nil, nil, false)
+				return "played"
+			}
+		} else if time.Since(dl.Add(-20*time.Second)) > 4*time.Second {
+			break
+		}
+		time.Sleep(500 * time.Microsecond)
+	}
+	a := mkArgs()
+	if opened {
+		a.Note = "a hand played by bots only did not reach settlement"
+		d.rec.Emit("botstall", a, "", d.te, nil, nil, false)
+		return "stuck"
+	}
+	a.Note = "no hand opened after the gate"
+	d.rec.Emit("noopen", a, "", d.te, nil, nil, false)
+	return "noopen"
 }
 
 func (d *TD) bystanderDigest() string {
@@ -1259,7 +1344,12 @@ func (d *TD) Run() string {
 		if s.Op != nil {
 			d.exec(*s.Op)
 		} else if s.Hand != nil {
-			r := d.playHand(s.Hand)
+			var r string
+			if sc.Bots {
+				r = d.playHandBots()
+			} else {
+				r = d.playHand(s.Hand)
+			}
 			if r == "stuck" {
 				outcome = "stuck"
 				break
